@@ -99,14 +99,14 @@ static void run_once(const vcase *c, void *work, long lwork, outcome *O, xs *kee
     dmat B; make_rhs(T, &s->A_orig, 0, c->rhs, 1, &B); xs_set_rhs(s, &B, 0, 0);
     superlu_options_t opt;
     if (c->aux) { ilu_opts(&opt); opt.ColPerm = (colperm_t[]){ NATURAL, MMD_ATA, MMD_AT_PLUS_A, COLAMD, MY_PERMC }[c->colperm]; opt.DiagPivotThresh = c->u; opt.Equil = c->equil ? YES : NO; opt.RowPerm = NOROWPERM;
-                  if (c->aux == 2) { opt.ILU_FillFactor = c->tune[6]; opt.ILU_DropTol = 0.0; } }   /* aux=2: the fill estimate also drives the ILU storage guess */
+                  if (c->aux == 2) { opt.ILU_FillFactor = c->tune[6]; opt.ILU_DropTol = 0.0; opt.ILU_DropRule = NODROP; } }   /* aux=2: the fill estimate also drives the ILU storage guess */
     else xs_options(c, &opt, s);
     opt.Fact = DOFACT;
     s->work = work; s->lwork = lwork;
     memset(&s->Glu, 0, sizeof s->Glu);
     xs_call(s, &opt);
     O->info = s->info; O->glu_exp = s->Glu.num_expansions;
-    if (s->info >= 0 && s->info <= c->n && !c->aux) {
+    if (s->info >= 0 && s->info <= c->n && c->aux != 1) {
         long init = (long)((double)c->tune[6] * (double)s->S.nnz);
         if ((long)s->Glu.nzlumax > init) WK_COUNT(C_XL);
         if ((long)s->Glu.nzumax > init) WK_COUNT(C_XU);
